@@ -228,8 +228,13 @@ func (x *Exec) callFunc(fr *Frame, st *State, callee *ssa.Function, bindings []V
 	if v, ok := x.libCall(fr, st, key, callee, args, rt, pos); ok {
 		return v
 	}
+	if v, ok := x.abstractCall(st, callee, args, rt); ok {
+		return v
+	}
 	c := x.cs.Funcs[key]
 	if c != nil && c.Inline != "always" && (callee.Blocks == nil || c.Trusted || c.Inline == "never" || len(c.Ensures) > 0 || c.HasAssigns) && !(len(x.stack) > 0 && x.stack[0] == callee && false) {
+		x.ccBindings = bindings
+		defer func() { x.ccBindings = nil }()
 		return x.callContract(fr, st, c, callee, nil, args, rt, pos)
 	}
 	x.prog.ensureBuilt(callee)
@@ -272,6 +277,82 @@ func (x *Exec) callFunc(fr *Frame, st *State, callee *ssa.Function, bindings []V
 	x.assume(g, out.guard)
 	st.guard = g
 	return x.packResults(rt, rs)
+}
+
+// abstractCall: the contract under verification lists the callee under abstract-calls.
+// The call is then an uninterpreted function of its arguments, one per result: the same
+// arguments give the same results wherever the call appears (code or specification).
+// Accepted only for callees whose parameters and results are values (no pointers, slices,
+// maps, interfaces other than error results) and that write no heap component, so that the
+// result cannot depend on anything but the arguments.
+func (x *Exec) abstractCall(st *State, callee *ssa.Function, args []V, rt types.Type) (V, bool) {
+	if len(x.abstract) == 0 || x.topFn == nil {
+		return V{}, false
+	}
+	name := funcKey(callee)
+	if callee.Pkg != nil && callee.Pkg != x.topFn.Pkg {
+		name = callee.Pkg.Pkg.Name() + "." + name
+	}
+	if !x.abstract[name] {
+		return V{}, false
+	}
+	sig := callee.Signature
+	valueType := func(t types.Type, result bool) bool {
+		switch u := t.Underlying().(type) {
+		case *types.Basic:
+			return true
+		case *types.Interface:
+			return result && types.Identical(t, types.Universe.Lookup("error").Type())
+		case *types.Struct:
+			for i := 0; i < u.NumFields(); i++ {
+				if _, ok := u.Field(i).Type().Underlying().(*types.Basic); !ok {
+					return false
+				}
+			}
+			return true
+		}
+		return false
+	}
+	if sig.Recv() != nil {
+		panic(contractError("abstract-calls: " + name + " is a method"))
+	}
+	for i := 0; i < sig.Params().Len(); i++ {
+		if !valueType(sig.Params().At(i).Type(), false) {
+			panic(contractError("abstract-calls: parameter of " + name + " is not a plain value"))
+		}
+	}
+	for i := 0; i < sig.Results().Len(); i++ {
+		if !valueType(sig.Results().At(i).Type(), true) {
+			panic(contractError("abstract-calls: result of " + name + " is not a plain value or error"))
+		}
+	}
+	x.prog.ensureBuilt(callee)
+	if mods, all := x.funcMods(callee); all || len(mods) > 0 {
+		// writes may still be confined to memory the callee allocates itself: accepted when
+		// the callee's own contract proves `assigns nothing`
+		cc := x.cs.Funcs[fullFuncKey(callee)]
+		if cc == nil || cc.Trusted || !cc.HasAssigns || len(cc.Assigns) > 0 {
+			panic(contractError("abstract-calls: " + name + " has heap effects and no proved `assigns nothing`"))
+		}
+	}
+	var sorts, terms []string
+	for _, a := range args {
+		sorts = append(sorts, x.s.sortOf(a.T))
+		terms = append(terms, a.S)
+	}
+	x.trust("calls to " + name + " are abstracted to a deterministic function of the arguments (checked: value parameters, no heap writes)")
+	var rs []V
+	for i := 0; i < sig.Results().Len(); i++ {
+		t := sig.Results().At(i).Type()
+		uf := fmt.Sprintf("abs_%s_%d", sanitize(fullFuncKey(callee)), i)
+		x.s.declareUF(uf, "("+strings.Join(sorts, " ")+")", x.s.sortOf(t))
+		term := x.define("abs", x.s.sortOf(t), "("+uf+" "+strings.Join(terms, " ")+")")
+		if inv := x.s.typeInv(t, term); inv != "" && inv != "true" {
+			x.assume("true", inv)
+		}
+		rs = append(rs, V{T: t, S: term})
+	}
+	return x.packResults(rt, rs), true
 }
 
 func pkgPathOfKey(fn *ssa.Function, p *Program) string {
@@ -344,6 +425,19 @@ func (x *Exec) callContract(fr *Frame, st *State, c *Contract, callee *ssa.Funct
 			env.names[n] = args[i]
 		}
 	}
+	if callee != nil && len(callee.FreeVars) > 0 && len(x.ccBindings) == len(callee.FreeVars) {
+		// a closure's contract names its captured variables
+		env.cells = map[string]V{}
+		for i, fv := range callee.FreeVars {
+			b := x.ccBindings[i]
+			if _, ok := b.T.Underlying().(*types.Pointer); ok {
+				env.cells[fv.Name()] = b
+			} else {
+				env.names[fv.Name()] = b
+			}
+		}
+	}
+	x.ccBindings = nil
 	for i, r := range c.Requires {
 		f := env.evalBool(r.E)
 		x.addObl(&Obligation{Name: fmt.Sprintf("%s#pre.%s.%d@%s", funcKey(fr.fn), c.Key, i+1, x.prog.posShort(pos, fr.fn)), Kind: "pre", Tag: r.Tag,
@@ -376,7 +470,7 @@ func (x *Exec) callContract(fr *Frame, st *State, c *Contract, callee *ssa.Funct
 	x.assume("true", "(>= "+na+" "+st.alloc+")")
 	st.alloc = na
 	res := x.freshOfType(st, rt, "res_"+sanitize(c.Key))
-	env2 := &Env{x: x, pkg: env.pkg, names: env.names, cur: st, old: pre, contract: c}
+	env2 := &Env{x: x, pkg: env.pkg, names: env.names, cells: env.cells, cur: st, old: pre, contract: c}
 	if res.Tup != nil {
 		env2.results = res.Tup
 	} else if _, isTup := rt.(*types.Tuple); !isTup {
@@ -423,7 +517,12 @@ func (x *Exec) paramNames(callee *ssa.Function, method *types.Func) []string {
 	sig := method.Type().(*types.Signature)
 	names = append(names, "self")
 	for i := 0; i < sig.Params().Len(); i++ {
-		names = append(names, sig.Params().At(i).Name())
+		n := sig.Params().At(i).Name()
+		if n == "" || n == "_" {
+			// unnamed interface-method parameter: argN (N counts from 0 without the receiver)
+			n = fmt.Sprintf("arg%d", i)
+		}
+		names = append(names, n)
 	}
 	return names
 }
@@ -847,6 +946,7 @@ func (x *Exec) appendOp(fr *Frame, st *State, s, t V, rt types.Type) V {
 	var tElem string
 	if tIsStr {
 		if x.s.strSMT {
+			x.s.strBytes = true
 			tElem = "(str.to_code (str.at " + t.S + " (- ai! (+ " + dstOff + " (s_len " + s.S + ")))))"
 		} else {
 			tElem = "(sat " + t.S + " (- ai! (+ " + dstOff + " (s_len " + s.S + "))))"
@@ -888,6 +988,7 @@ func (x *Exec) copyOp(fr *Frame, st *State, dst, src V) V {
 	var sElem string
 	if srcIsStr {
 		if x.s.strSMT {
+			x.s.strBytes = true
 			sElem = "(str.to_code (str.at " + src.S + " (- ai! (s_off " + dst.S + "))))"
 		} else {
 			sElem = "(sat " + src.S + " (- ai! (s_off " + dst.S + ")))"
